@@ -79,6 +79,8 @@ func expected(name string, k *cuworld.Kernel, g cuworld.Geometry) []byte {
 			out(uint32(l) + 3)
 			le.PutUint32(m[cuworld.Tmp+4*gid:], uint32(l)+2)
 			le.PutUint32(m[cuworld.Out2+4*gid:], uint32(l)+3)
+		case "k16_vcc_pair_then_vcc_halves":
+			out((uint32(0x44444444) ^ 0x22222222 ^ 0x44444444) + 0x08080808 + uint32(l))
 		case "k15_uncoalesced_64_lines_per_load":
 			out(in((l % 64) * 16))
 		case "k14_unawaited_scalar_load_into_wg_id_register":
@@ -324,7 +326,7 @@ func main() {
 		r.Tier = "thorough" // a replay file may name a scenario of either tier
 	}
 	ks := cuworld.LoadKernels(harness.Dir())
-	names := []string{"k1_lds_barrier", "k2_global_barrier", "k3_two_barriers", "k4_waitcnt_vm", "k5_waitcnt_lgkm", "k6_early_exit_before_barrier", "k7_late_exit_without_barrier", "k8_store_then_endpgm", "k9_exit_with_pending_store_while_others_wait", "k10_many_scalar_loads", "k11_many_stores", "k12_register_signature_survives_neighbour_exit", "k13_gather_sparse_then_dense_line", "k14_unawaited_scalar_load_into_wg_id_register", "k15_uncoalesced_64_lines_per_load"}
+	names := []string{"k1_lds_barrier", "k2_global_barrier", "k3_two_barriers", "k4_waitcnt_vm", "k5_waitcnt_lgkm", "k6_early_exit_before_barrier", "k7_late_exit_without_barrier", "k8_store_then_endpgm", "k9_exit_with_pending_store_while_others_wait", "k10_many_scalar_loads", "k11_many_stores", "k12_register_signature_survives_neighbour_exit", "k13_gather_sparse_then_dense_line", "k14_unawaited_scalar_load_into_wg_id_register", "k15_uncoalesced_64_lines_per_load", "k16_vcc_pair_then_vcc_halves"}
 
 	// --- the emulation CU as a second implementation: values and executed-PC sequences
 	type geo = cuworld.Geometry
@@ -500,7 +502,7 @@ func main() {
 	if partOf != "" {
 		var f []harness.Scenario
 		for _, sc := range scs {
-			early := strings.Contains(sc.Name, "k6_") || strings.Contains(sc.Name, "k7_") || strings.Contains(sc.Name, "k9_") || strings.Contains(sc.Name, "k12_") || strings.Contains(sc.Name, "k14_")
+			early := strings.Contains(sc.Name, "k6_") || strings.Contains(sc.Name, "k7_") || strings.Contains(sc.Name, "k9_") || strings.Contains(sc.Name, "k12_") || strings.Contains(sc.Name, "k14_") || strings.Contains(sc.Name, "k16_")
 			if !(strings.Contains(sc.Name, "after-larger-kernel") || early && !strings.Contains(sc.Name, "many-waiting") && !strings.Contains(sc.Name, "slow-memory")) && r.Replay == "" {
 				continue
 			}
